@@ -656,7 +656,7 @@ void gv::generate(const std::string& tier, uint64_t seed) {
     for (int k = 0; k < (th ? 400 : 60); ++k) run("fftradix", {std::to_string(g.irange(1, k % 3 ? 300 : 20000))});
     for (int N : {2, 3, 4, 6, 96, 1536, 4096}) run("dstlen", {std::to_string(N)});
   };
-  int rounds = th ? 12 : 3;
+  int rounds = th ? 16 : 6;
   for (int round = 0; round < rounds; ++round)
     for (auto& kv : suites()) {
       if (round > 0 && kv.first == "Singletons") continue;      // a first touch happens once per process
